@@ -68,6 +68,9 @@ TSetGram ==
   \* (keeplex: the grammar set is the binarization of the extracted one - still the grammar of these trees)
   /\ ref' = [ref EXCEPT !.fromtrees = @ /\ "keeplex" \in DOMAIN Case.events[l + 1]]
   /\ UNCHANGED <<tid, errs, done>>
+\* a run for one property need not evaluate the (expensive: chain composition search) clauses of another:
+\* the driver says which properties it judges; without that, everything is evaluated
+Wants(p) == ("props" \notin DOMAIN Case) \/ (\E i \in 1..Len(Case.props) : Case.props[i] = p)
 TBinarize ==
   /\ IsEvent("binarize")
   /\ LET e == Case.events[l + 1]  m == ModeOf(e.mode) IN
@@ -75,8 +78,8 @@ TBinarize ==
        (IF e.res # "ok" THEN {<<"C07.raised", l + 1>>}
         ELSE {<<c, l + 1>> : c \in
                F("C07.out_keys_unique", NoDupKeys(e.out, LAMBDA x : <<x.func, x.lin>>)) \cup
-               C07(gram, OutOf(e.out), m) \cup
-               (IF ref.fromtrees THEN C08(gram, OutOf(e.out), m, lex, ref.roots, ref.nodecnt) ELSE {})})
+               (IF Wants("C07") THEN C07(gram, OutOf(e.out), m) ELSE {}) \cup
+               (IF ref.fromtrees /\ Wants("C08") THEN C08(gram, OutOf(e.out), m, lex, ref.roots, ref.nodecnt) ELSE {})})
   /\ UNCHANGED <<tid, gram, lex, ref, done>>
 
 \* ---- grammar files (C09) ----
